@@ -15,8 +15,11 @@ import (
 	"errors"
 	"fmt"
 	"io"
+	"reflect"
 	"sort"
+	"strings"
 	"sync"
+	"time"
 
 	pb "go.etcd.io/etcd/api/v3/etcdserverpb"
 	"go.etcd.io/etcd/api/v3/mvccpb"
@@ -66,34 +69,220 @@ type C15Fake struct {
 	streams  []*c15Stream
 	getErrs  int
 	getHangs int
-	afterKey string
-	afterGet func()
-	batch    bool // replay as one multi-event response
-	Gets     int
-	Watches  int
-	Overflow bool
-	BadWatch string
+	// time-based outage: until downUntil (virtual time) every Get is treated as the next entry of
+	// downModes says (cycled): <0 black hole until the caller's context is done, 0 error at once,
+	// k>0 error after k*100ms
+	downUntil time.Time
+	downModes []int
+	downNext  int
+	inflight  int       // injected faults that have not returned yet
+	faultEnd  time.Time // when the last injected fault returned
+	failing   map[string]int
+	lastErr   map[string]error
+	// Stuck: a Get still failed (it can only be the caller's own context) although the fake has been
+	// answering for longer than one request time-out plus one cool-down; once set every Get blocks for ever
+	Stuck string
+	// leases
+	nextLease          int64
+	leases             map[int64]map[string]bool
+	ka                 map[int64]chan *clientv3.LeaseKeepAliveResponse
+	clientLog          []C15Event
+	loseClient         bool
+	grantErrs, putErrs int
+	kaErrs             int
+	afterKey           string
+	afterGet           func()
+	batch              bool // replay as one multi-event response
+	Gets               int
+	Watches            int
+	Overflow           bool
+	BadWatch           string
 }
 
 // NewC15Fake creates a store at revision rev0 (0 = never written).
 func NewC15Fake(rev0 int64, batchReplay bool) *C15Fake {
-	return &C15Fake{rev: rev0, rev0: rev0, kv: map[string]string{}, batch: batchReplay}
+	return &C15Fake{rev: rev0, rev0: rev0, kv: map[string]string{}, batch: batchReplay, failing: map[string]int{}, lastErr: map[string]error{}}
 }
+
+// C15RetryBound is the virtual time cluster.load may need, by the code's own constants, to take a
+// snapshot once the registry answers again: a request that was in flight when the registry
+// recovered runs into its time-out at the latest RequestTimeout later, one cool-down follows, the
+// next attempt is answered at once.
+func C15RetryBound() time.Duration { return RequestTimeout + coolDownInterval }
+
+// C15CoolDown is the pause between two attempts of cluster.load.
+func C15CoolDown() time.Duration { return coolDownInterval }
 
 func (f *C15Fake) ActiveConnection() *grpc.ClientConn { return nil }
 func (f *C15Fake) Close() error                       { return nil }
 func (f *C15Fake) Ctx() context.Context               { return context.Background() }
+
+// ---- leases: what a discov.Publisher needs (Grant, Put with lease, KeepAlive, Revoke)
+
+// C15LeaseBase: the first lease id the fake hands out (a real id is a random 63-bit number).
+func (f *C15Fake) SetLeaseBase(id int64) {
+	f.mu.Lock()
+	f.nextLease = id
+	f.mu.Unlock()
+}
+
+// FailLeaseCalls makes the next n Grant / Put / KeepAlive calls fail.
+func (f *C15Fake) FailLeaseCalls(grants, puts, keepAlives int) {
+	f.mu.Lock()
+	f.grantErrs, f.putErrs, f.kaErrs = grants, puts, keepAlives
+	f.mu.Unlock()
+}
+
+// LoseClientEvents: while set, the mutations made through Put / Revoke / lease expiry are not
+// shown to any watcher (the subscribers' watch is down meanwhile).
+func (f *C15Fake) LoseClientEvents(on bool) {
+	f.mu.Lock()
+	f.loseClient = on
+	f.mu.Unlock()
+}
+
+// ClientEvents returns (and forgets) the store mutations made through the client API since the
+// last call, in order.
+func (f *C15Fake) ClientEvents() []C15Event {
+	f.mu.Lock()
+	defer f.mu.Unlock()
+	out := f.clientLog
+	f.clientLog = nil
+	return out
+}
+
+// LiveLeases lists the leases that still exist, ascending.
+func (f *C15Fake) LiveLeases() []int64 {
+	f.mu.Lock()
+	defer f.mu.Unlock()
+	var out []int64
+	for id := range f.leases {
+		out = append(out, id)
+	}
+	sort.Slice(out, func(i, j int) bool { return out[i] < out[j] })
+	return out
+}
+
 func (f *C15Fake) Grant(ctx context.Context, ttl int64) (*clientv3.LeaseGrantResponse, error) {
-	return nil, errors.New("c15 fake: not implemented")
+	f.mu.Lock()
+	defer f.mu.Unlock()
+	if f.grantErrs > 0 {
+		f.grantErrs--
+		return nil, errors.New("c15 fake: scripted Grant failure")
+	}
+	if f.nextLease == 0 {
+		f.nextLease = 1
+	}
+	id := f.nextLease
+	f.nextLease++
+	if f.leases == nil {
+		f.leases = map[int64]map[string]bool{}
+		f.ka = map[int64]chan *clientv3.LeaseKeepAliveResponse{}
+	}
+	f.leases[id] = map[string]bool{}
+	return &clientv3.LeaseGrantResponse{ResponseHeader: &pb.ResponseHeader{Revision: f.rev}, ID: clientv3.LeaseID(id), TTL: ttl}, nil
 }
+
 func (f *C15Fake) KeepAlive(ctx context.Context, id clientv3.LeaseID) (<-chan *clientv3.LeaseKeepAliveResponse, error) {
-	return nil, errors.New("c15 fake: not implemented")
+	f.mu.Lock()
+	defer f.mu.Unlock()
+	if f.kaErrs > 0 {
+		f.kaErrs--
+		return nil, errors.New("c15 fake: scripted KeepAlive failure")
+	}
+	if _, ok := f.leases[int64(id)]; !ok {
+		return nil, errors.New("c15 fake: etcdserver: requested lease not found")
+	}
+	ch := make(chan *clientv3.LeaseKeepAliveResponse, 16)
+	f.ka[int64(id)] = ch
+	return ch, nil
 }
+
 func (f *C15Fake) Put(ctx context.Context, key, val string, opts ...clientv3.OpOption) (*clientv3.PutResponse, error) {
-	return nil, errors.New("c15 fake: not implemented")
+	op := clientv3.OpPut(key, val, opts...)
+	lease := reflect.ValueOf(op).FieldByName("leaseID").Int()
+	f.mu.Lock()
+	defer f.mu.Unlock()
+	if f.putErrs > 0 {
+		f.putErrs--
+		return nil, errors.New("c15 fake: scripted Put failure")
+	}
+	if lease != 0 {
+		if _, ok := f.leases[lease]; !ok {
+			return nil, errors.New("c15 fake: etcdserver: requested lease not found")
+		}
+	}
+	// a key belongs to the lease of its last Put
+	for _, ks := range f.leases {
+		delete(ks, key)
+	}
+	if lease != 0 {
+		f.leases[lease][key] = true
+	}
+	f.applyLocked(false, key, val, f.loseClient)
+	f.clientLog = append(f.clientLog, f.log[len(f.log)-1])
+	return &clientv3.PutResponse{Header: &pb.ResponseHeader{Revision: f.rev}}, nil
 }
+
+// dropLease deletes the keys attached to the lease (f.mu held).
+func (f *C15Fake) dropLease(id int64) bool {
+	keys, ok := f.leases[id]
+	if !ok {
+		return false
+	}
+	delete(f.leases, id)
+	var ks []string
+	for k := range keys {
+		ks = append(ks, k)
+	}
+	sort.Strings(ks)
+	for _, k := range ks {
+		if _, live := f.kv[k]; live {
+			f.applyLocked(true, k, "", f.loseClient)
+			f.clientLog = append(f.clientLog, f.log[len(f.log)-1])
+		}
+	}
+	return true
+}
+
 func (f *C15Fake) Revoke(ctx context.Context, id clientv3.LeaseID) (*clientv3.LeaseRevokeResponse, error) {
-	return nil, errors.New("c15 fake: not implemented")
+	f.mu.Lock()
+	defer f.mu.Unlock()
+	if !f.dropLease(int64(id)) {
+		return nil, errors.New("c15 fake: etcdserver: requested lease not found")
+	}
+	if ch, ok := f.ka[int64(id)]; ok {
+		// like the real lessor: the keep-alive channel of a revoked lease is closed
+		delete(f.ka, int64(id))
+		close(ch)
+	}
+	return &clientv3.LeaseRevokeResponse{Header: &pb.ResponseHeader{Revision: f.rev}}, nil
+}
+
+// EndKeepAlive closes the keep-alive channel of the pick-th live lease that has one (the
+// client could not renew it any more). With expire the lease has also run out on the server: its keys are deleted first.
+func (f *C15Fake) EndKeepAlive(pick int, expire bool) bool {
+	f.mu.Lock()
+	defer f.mu.Unlock()
+	var ids []int64
+	for id := range f.ka {
+		ids = append(ids, id)
+	}
+	if len(ids) == 0 {
+		return false
+	}
+	sort.Slice(ids, func(i, j int) bool { return ids[i] < ids[j] })
+	if pick < 0 {
+		pick = -pick
+	}
+	id := ids[pick%len(ids)]
+	if expire {
+		f.dropLease(id)
+	}
+	ch := f.ka[id]
+	delete(f.ka, id)
+	close(ch)
+	return true
 }
 
 // FailGets makes the next n Get calls fail.
@@ -109,6 +298,68 @@ func (f *C15Fake) HangGets(n int) {
 	f.mu.Lock()
 	f.getHangs = n
 	f.mu.Unlock()
+}
+
+// Outage makes the fake unavailable for d of virtual time from now: every Get issued before the
+// end is treated as the next entry of modes says (cycled): <0 = black hole, no answer until the
+// caller's context is done (also when that is after the end of the outage: the request is lost);
+// 0 = error at once; k>0 = error after k*100ms. Gets issued after the end are answered.
+func (f *C15Fake) Outage(d time.Duration, modes []int) {
+	if len(modes) == 0 {
+		modes = []int{0}
+	}
+	f.mu.Lock()
+	f.downUntil, f.downModes, f.downNext = time.Now().Add(d), modes, 0
+	f.mu.Unlock()
+}
+
+// Failing lists the Get keys whose most recent Get returned an error.
+func (f *C15Fake) Failing() string {
+	f.mu.Lock()
+	defer f.mu.Unlock()
+	var out []string
+	for k, n := range f.failing {
+		out = append(out, fmt.Sprintf("%q (%d failed attempts, last error: %v)", k, n, f.lastErr[k]))
+	}
+	sort.Strings(out)
+	return strings.Join(out, ", ")
+}
+
+// IsStuck reports the livelock verdict (see Stuck).
+func (f *C15Fake) IsStuck() string {
+	f.mu.Lock()
+	defer f.mu.Unlock()
+	return f.Stuck
+}
+
+// failLocked records a failed Get (f.mu held, released here). A failure the fake did not inject can
+// only come from the caller's context. When the fake has been answering again for longer than
+// C15RetryBound and a Get still fails, the caller's retry loop does not converge: the verdict is
+// recorded and this and every later Get blocks for ever, which turns the endless retry loop
+// (endless in VIRTUAL time: the bubble would never become idle) into a hang of the bubble.
+func (f *C15Fake) failLocked(key string, err error, injected bool) (*clientv3.GetResponse, error) {
+	f.failing[key]++
+	f.lastErr[key] = err
+	now := time.Now()
+	if !injected && f.getErrs == 0 && f.getHangs == 0 && f.inflight == 0 && !now.Before(f.downUntil) {
+		rec := f.downUntil
+		if f.faultEnd.After(rec) {
+			rec = f.faultEnd
+		}
+		if since := now.Sub(rec); since > C15RetryBound() || rec.IsZero() {
+			what := fmt.Sprintf("recovered %v ago", since)
+			if rec.IsZero() {
+				what = "was never unavailable"
+			}
+			f.Stuck = fmt.Sprintf("subscriber view did not converge within %v of virtual time (RequestTimeout + coolDownInterval) after the fake etcd recovered: Get %q is still failing (attempt %d: %v) although the fake %s", C15RetryBound(), key, f.failing[key], err, what)
+		}
+	}
+	stuck := f.Stuck != ""
+	f.mu.Unlock()
+	if stuck {
+		select {}
+	}
+	return nil, err
 }
 
 // MarkStale declares every existing stream abandoned (called right before a
@@ -128,6 +379,19 @@ func (f *C15Fake) SendEmpty() {
 	for _, s := range f.streams {
 		if s.open {
 			f.send(s, clientv3.WatchResponse{Header: pb.ResponseHeader{Revision: f.rev}})
+		}
+	}
+}
+
+// SendUnknown delivers a response with one event of a type that is neither PUT nor DELETE to every open stream.
+func (f *C15Fake) SendUnknown(key string) {
+	f.mu.Lock()
+	defer f.mu.Unlock()
+	for _, s := range f.streams {
+		if s.open && s.matches(key) {
+			r := clientv3.WatchResponse{Header: pb.ResponseHeader{Revision: f.rev}}
+			r.Events = append(r.Events, &clientv3.Event{Type: mvccpb.Event_EventType(7), Kv: &mvccpb.KeyValue{Key: []byte(key), Value: []byte("unknown-event-type"), ModRevision: f.rev}})
+			f.send(s, r)
 		}
 	}
 }
@@ -179,21 +443,54 @@ func (f *C15Fake) Get(ctx context.Context, key string, opts ...clientv3.OpOption
 	op := clientv3.OpGet(key, opts...)
 	f.mu.Lock()
 	f.Gets++
-	if err := ctx.Err(); err != nil {
+	if f.Stuck != "" {
 		f.mu.Unlock()
-		return nil, err
+		select {}
 	}
-	if f.getHangs > 0 {
+	mode, injected := 0, false
+	switch {
+	case f.getHangs > 0:
 		f.getHangs--
-		f.mu.Unlock()
-		<-ctx.Done()
-		return nil, ctx.Err()
-	}
-	if f.getErrs > 0 {
+		mode, injected = -1, true
+	case f.getErrs > 0:
 		f.getErrs--
-		f.mu.Unlock()
-		return nil, errors.New("c15 fake: scripted Get failure")
+		injected = true
+	case time.Now().Before(f.downUntil):
+		mode, injected = f.downModes[f.downNext%len(f.downModes)], true
+		f.downNext++
 	}
+	if err := ctx.Err(); err != nil {
+		// the caller's context is already done: a client fails such a call at once, whatever the
+		// state of the server (a scripted fault is consumed by it all the same)
+		if injected {
+			f.faultEnd = time.Now()
+		}
+		return f.failLocked(key, err, false)
+	}
+	if injected {
+		f.inflight++
+		f.mu.Unlock()
+		err := errors.New("c15 fake: scripted Get failure (etcdserver: no leader)")
+		switch {
+		case mode < 0:
+			<-ctx.Done()
+			err = ctx.Err()
+		case mode > 0:
+			tm := time.NewTimer(time.Duration(mode) * 100 * time.Millisecond)
+			select {
+			case <-tm.C:
+			case <-ctx.Done():
+				err = ctx.Err()
+			}
+			tm.Stop()
+		}
+		f.mu.Lock()
+		f.inflight--
+		f.faultEnd = time.Now()
+		return f.failLocked(key, err, true)
+	}
+	delete(f.failing, key)
+	delete(f.lastErr, key)
 	lo, hi := string(op.KeyBytes()), string(op.RangeBytes())
 	var keys []string
 	for k := range f.kv {
@@ -317,6 +614,13 @@ func (f *C15Fake) PumpStep(pick int) []C15Event {
 	s.pending = s.pending[1:]
 	f.send(s, c15Resp(evs[len(evs)-1].Rev, evs))
 	return evs
+}
+
+// GetCount is the number of Get calls so far.
+func (f *C15Fake) GetCount() int {
+	f.mu.Lock()
+	defer f.mu.Unlock()
+	return f.Gets
 }
 
 // Rev is the store revision.
